@@ -1,5 +1,26 @@
 """C10 — writer API is total and never stores what it cannot represent."""
+import os
 import vlib, filecommon, progs
+from vlib import log
+
+
+def packet_model(v, wd, deep):
+    """PacketWriterSpec (capacity scaled down): packets fit, nothing is lost, no panic, finalize terminates for the writer as
+    built; the unguarded capacity arithmetic (before D-23) has counterexamples for NoPanic and for termination."""
+    out = []
+    for variant, invs, props, expect_ok in (("asbuilt", ["PacketFits", "NothingLost", "NoPanic"], ["Terminates"], True),
+                                            ("unguarded", ["NoPanic"], [], False), ("unguarded", ["PacketFits", "NothingLost"], ["Terminates"], False)):
+        cfg = os.path.join(wd, f"packetw_{variant}_{len(out)}.cfg")
+        vlib.write_cfg(cfg, spec="Spec", constants={"Cap": 40, "Margin": 4, "Hdr": 6, "MaxPts": 40 if deep else 30, "Protos": "<- MCProtos", "Variant": f'"{variant}"'},
+                       invariants=invs, properties=props)
+        r = vlib.tlc_mc("MC_PacketW", cfg, os.path.join(wd, f"packetw_{variant}_{len(out)}.out"), workers=2, timeout=900)
+        ok = r["ok"] and r["violated"] is None
+        out.append({"variant": variant, "checked": invs + props, "holds": ok, "states": r["distinct"]})
+        if ok != expect_ok:
+            raise vlib.ToolError(f"PacketWriterSpec: variant '{variant}' expected {'to hold' if expect_ok else 'to be violated'} (see {r['out']})")
+        v.add(states=r["distinct"], transitions=r["generated"])
+    v.cov["packet_writer_model"] = out
+    log(f"[C10] PacketWriterSpec: holds as built ({out[0]['states']} states); the unguarded arithmetic violates NoPanic and termination")
 
 
 def run(tier, seed, args):
@@ -9,6 +30,9 @@ def run(tier, seed, args):
     if args.replay:
         filecommon.validate_runs(v, wd, filecommon.split_runs(args.replay), "replay", focus=("C10",))
         return v.finish()
+    packet_model(v, wd, tier == "thorough")
+    if tier == "thorough":
+        vlib.tlaps(v, wd, "PacketLemmas", ["PacketFits"])
     ps = progs.c10_programs(seed, tier)
     filecommon.run_programs(v, wd, exe, ps, "c10", focus=("C10", "C01", "C02", "C06"), jobs=6, batch_events=400)
     v.add(states=v.cov.get("trace_events", 0), transitions=v.cov.get("trace_events", 0),
